@@ -10,7 +10,7 @@ TRUSTED_BASE = ['pyvc VC generator', 'z3 5.1', 'cvc5 1.0.3 (only for queries z3 
 PROPS = {
     'C04': dict(
         level='proof',
-        contracts=['C04', 'body_read', 'body_access'],
+        contracts=['C04', 'body_read', 'body_access', 'reqobj'],
         frames=[],
         technique='deductive: loop-invariant VCs generated from the real AST of _iter_body/_body_read/_body/body, discharged by z3/cvc5; '
                   'bounded run-time contract check as replay harness',
@@ -23,7 +23,7 @@ PROPS = {
     ),
     'C05': dict(
         level='proof',
-        contracts=['C05', 'body_read', 'body_access', 'config'],
+        contracts=['C05', 'body_read', 'body_access', 'config', 'reqobj'],
         frames=[],
         technique='deductive: loop-invariant VCs over ghost stream state generated from the real AST of _iter_chunked / _body_read, '
                   'z3 then cvc5; bounded run-time contract check against an RFC 7230 reference decoder as replay harness',
@@ -185,7 +185,7 @@ PROPS = {
         level_note='The handler-program space is finite and stated in coverage.bounded.bound.',
     ),
     'C08': dict(
-        level='other', contracts=['C10', 'C20', 'C02', 'C03'], frames=['confinement'],
+        level='other', contracts=['C10', 'C20', 'C02', 'C03', 'wsgi'], frames=['confinement'],
         technique='bounded run-time contract check with forced thread interleavings (token hand-over at every executed statement of the '
                   'package via sys.settrace; all schedules up to a preemption bound) against the served-alone response; proved: the ts_props '
                   'accessors read and write only the thread-local store of their own instance; the process-wide template cache is published atomically',
@@ -211,7 +211,7 @@ PROPS = {
         level_note='History length and request kinds are stated in coverage.bounded.bound.',
     ),
     'C10': dict(
-        level='proof', contracts=['C10', 'C03', 'C02'], frames=['confinement'],
+        level='proof', contracts=['C10', 'C03', 'C02', 'wsgi', 'reqobj'], frames=['confinement'],
         technique='deductive: heap-model VCs from the real AST of the ts_props accessors (fget/fset/fdel) and of the wrapped __init__ '
                   '(ownership: an accessor touches only the store of the instance it is called on; init writes nothing but its own instance '
                   'and its own store; no nonlocal/global write), and of HTTPResponse.apply (no aliasing of long-lived objects); bounded '
